@@ -27,6 +27,7 @@ class Gen18:
         self.templates = {}     # id -> (kind, placement)
         self.order = []
         self.alias_of = None
+        self.tdefaults = {}      # template id -> default attributes of a group / symbol template (variables for its content)
 
     def make_templates(self):
         r = self.r
@@ -36,6 +37,9 @@ class Gen18:
             if kind == "nested" and not any(k == "rect" for k, _ in self.templates.values()):
                 kind = "rect"
             self.templates["t%d" % i] = (kind, "specs")
+            if kind in ("group", "symbol") and r.random() < 0.4:
+                pool = {"w": r.randint(1, 9), "h": r.randint(1, 9), "lab": "D%d" % i, "cls": "dcls"}
+                self.tdefaults["t%d" % i] = {k: pool[k] for k in r.sample(sorted(pool), r.randint(1, 3))}
         groups = [t for t, (k, _) in self.templates.items() if k in ("group", "rect", "circle")]
         if groups and r.random() < 0.5:
             # a <reuse id=..> specialising a group template, itself used as a reuse target (its bindings are computed from
@@ -47,6 +51,11 @@ class Gen18:
         if r.random() < 0.3:
             self.templates["c1"] = ("const-group", r.choice(["inline", "defs"]))
 
+    def dattrs(self, tid, env=None):
+        """the template's own default attributes (with the instance's values when env is given)"""
+        d = self.tdefaults.get(tid, {})
+        return "".join(' %s="%s"' % (k, (env or d)[k]) for k in sorted(d))
+
     def template_xml(self, tid):
         kind, _ = self.templates[tid]
         if kind == "rect":
@@ -54,9 +63,9 @@ class Gen18:
         if kind == "circle":
             return '<circle id="%s" r="$w" class="k"/>' % tid
         if kind == "group":
-            return ('<g id="%s"><rect wh="$w 2"/><text xy="^|v 1" text="$lab"/><circle cxy="{{$w / 2}} -3" r="1" class="$cls"/></g>') % tid
+            return ('<g id="%s"%s><rect wh="$w 2"/><text xy="^|v 1" text="$lab"/><circle cxy="{{$w / 2}} -3" r="1" class="$cls"/></g>') % (tid, self.dattrs(tid))
         if kind == "symbol":
-            return '<symbol id="%s"><rect wh="$w $h" class="$cls"/></symbol>' % tid
+            return '<symbol id="%s"%s><rect wh="$w $h" class="$cls"/></symbol>' % (tid, self.dattrs(tid))
         if kind == "nested":
             inner = [t for t, (k, _) in self.templates.items() if k == "rect"][0]
             return '<g id="%s"><reuse href="#%s" w="{{$w * 2}}" h="1" lab="in-$lab" cls="n"/><rect xy="0 5" wh="$w 1"/></g>' % (tid, inner)
@@ -103,9 +112,9 @@ class Gen18:
             return '<circle%s%s r="%d" class="k %s"%s/>' % (ida, a, w, cls_extra, sty)
         if kind == "group":
             body = '<rect wh="%d 2"/><text xy="^|v 1" text="%s"/><circle cxy="%s -3" r="1" class="%s"/>' % (w, lab, fmt_half(w), cls)
-            return '<g%s class="%s"%s%s>%s</g>' % (ida, cls_extra, sty, tr(x, y), body)
+            return '<g%s%s class="%s"%s%s>%s</g>' % (ida, self.dattrs(tid, env), cls_extra, sty, tr(x, y), body)
         if kind == "symbol":
-            return '<g%s class="%s"%s%s><rect wh="%d %d" class="%s"/></g>' % (ida, cls_extra, sty, tr(x, y), w, h, cls)
+            return '<g%s%s class="%s"%s%s><rect wh="%d %d" class="%s"/></g>' % (ida, self.dattrs(tid, env), cls_extra, sty, tr(x, y), w, h, cls)
         if kind == "alias":
             n = env["n"]
             return self.inline(self.alias_of, dict(w=n + 1, h=n, lab="A%d" % n, cls="al"), rid, ["via"] + rclasses + [tid], rstyle, x, y)
@@ -122,6 +131,7 @@ class Gen18:
     def build(self):
         r = self.r
         self.make_templates()
+        scheme = r.choice(["plain", "plain", "underscore", "mixed", "geometry"])
         uses_p, uses_u = [], []
         nbound = 0
         # global variables with the template parameters' names: the template can then be evaluated where it stands, and an
@@ -156,8 +166,13 @@ class Gen18:
                 attrs += ' n="%d"' % env["n"]
                 nbound += 1
             elif not kind.startswith("const"):
+                dflt = self.tdefaults.get(tid, {})
                 for nm in ("w", "h", "lab", "cls"):
-                    if glob and r.random() < 0.3:
+                    # (a template default named width / height is always overridden by the use: svgdx treats such attributes
+                    # of the template element itself as geometry, what they do when left to apply is not stated)
+                    if nm in dflt and r.random() < 0.4 and not (scheme == "geometry" and nm in ("w", "h")):
+                        env[nm] = dflt[nm]          # not bound by this instance: the template's own default applies (innermost)
+                    elif glob and nm not in dflt and r.random() < 0.3:
                         env[nm] = glob[nm]          # not bound by this instance: the global value applies
                     else:
                         attrs += (' %s="%d"' if nm in ("w", "h") else ' %s="%s"') % (nm, env[nm])
@@ -177,10 +192,11 @@ class Gen18:
         P = "<svg>\n" + "\n".join(head_p + uses_p + tail_p) + "\n</svg>"
         U = "<svg>\n" + "\n".join(pre + uses_u) + "\n</svg>"
         # binding names: any name the documentation allows (letters, digits, underscore, not starting with a digit)
-        scheme = r.choice(["plain", "plain", "underscore", "mixed"])
         if scheme != "plain":
             ren = {"underscore": {"w": "_w", "h": "_h", "lab": "_lab", "cls": "_cls", "n": "_n"},
-                   "mixed": {"w": "W_1", "h": "h2_", "lab": "__l", "cls": "Cls9", "n": "_"}}[scheme]
+                   "mixed": {"w": "W_1", "h": "h2_", "lab": "__l", "cls": "Cls9", "n": "_"},
+                   # names that are also geometry attributes: on a <reuse> they are plain variables
+                   "geometry": {"w": "width", "h": "height", "lab": "lab", "cls": "cls", "n": "n"}}[scheme]
 
             def rename(text):
                 text = re.sub(r"(?<=\s)(w|h|lab|cls|n)=", lambda m: ren[m.group(1)] + "=", text)
@@ -208,6 +224,10 @@ def canon(out):
             continue
         elif ev[0] == "start":
             attrs = dict(ev[2])
+            if ev[1] == "g":
+                # width / height mean nothing on a <g>; whether an instance keeps such a (variable) attribute is not stated
+                attrs.pop("width", None)
+                attrs.pop("height", None)
             if "class" in attrs:
                 attrs["class"] = " ".join(sorted(set(attrs["class"].split())))
             if "transform" in attrs:
